@@ -32,6 +32,14 @@ def build(prop: str, rng: random.Random, seed: int, root: str):
     Tmax = rng.randint(5, 16)
     if world["solver"]["cls"] == "PI":
         Tmax = rng.randint(3, 8)
+    if prop == "C09" and rng.random() < 0.12:
+        # state shuffling: the PRNG key is not part of a checkpoint, so the resumed trajectory
+        # legitimately differs - the resumed run must still converge within the same error bound
+        prob = P.draw_problem(rng, need_anchor=False)
+        kw = {"max_batch_size": rng.randint(1, prob["n"] + 3), "gamma": rng.choice([0.5, 0.7, 0.8, 0.9]), "epsilon": float(f"{P.loguniform(rng, 1e-6, 1e-2):.3g}"),
+              "convergence_test": "max_diff", "shuffle_states": True, "random_seed": rng.randint(0, 10**6)}
+        world = {"problem": prob, "solver": {"cls": "SA", "kw": kw}, "ckpt": P.draw_ckpt(rng)}
+        Tmax = 500
     ctl = Q.run_control(world, Tmax, root)
     plan = {"prop": prop, "seed": seed, "devices": P.devices_for(prop, seed), "world": world, "Tmax": Tmax}
     if not ctl.ok:
@@ -64,6 +72,8 @@ def evaluate(prop: str, plan: dict, run, ctl):
             Q.check_boot(V, prop, plan, run, li, h)
     if prop == "C09":
         Q.check_resume_point(V, prop, plan, run)
+        if Q.is_shuffled(plan["world"]):
+            Q.check_shuffled_bound(V, prop, plan, run)
     Q.check_calls(V, prop, run)
     if prop in ("C09", "C10", "C11"):
         Q.check_trajectory(V, prop, plan, run, ctl)
